@@ -519,12 +519,23 @@ func freshProcessCheck(p *core.Plan, w *Workload, ref []string, res *core.Result
 			continue
 		}
 		seen[string(kj)] = true
-		cmd := exec.Command(self, "c15child", fmt.Sprint(i))
+		// the child writes the outcome to a file: its stdout belongs to the scripts (printf)
+		of, err := os.CreateTemp("", "c15child")
+		if err != nil {
+			return "cannot create the child's outcome file: " + err.Error()
+		}
+		of.Close()
+		cmd := exec.Command(self, "c15child", fmt.Sprint(i), of.Name())
 		cmd.Stdin = bytes.NewReader(pj)
 		cmd.Env = append(os.Environ(), "GOMAXPROCS=1")
-		outb, err := cmd.Output()
-		if err != nil {
+		if err := cmd.Run(); err != nil {
+			os.Remove(of.Name())
 			return fmt.Sprintf("fresh-process child failed for op %d: %v", i, err)
+		}
+		outb, err := os.ReadFile(of.Name())
+		os.Remove(of.Name())
+		if err != nil {
+			return "cannot read the child's outcome file: " + err.Error()
 		}
 		res.Probes["fresh_process_references"]++
 		got := string(outb)
@@ -541,7 +552,7 @@ func freshProcessCheck(p *core.Plan, w *Workload, ref []string, res *core.Result
 
 func childMain(args []string) int {
 	plenv.Quiet()
-	if len(args) != 1 {
+	if len(args) != 2 {
 		return 2
 	}
 	var idx int
@@ -558,7 +569,9 @@ func childMain(args []string) int {
 	x := newExec(&w, wa.BaseTime)
 	out := x.do(&w.Ops[idx], true)
 	simrt.End()
-	os.Stdout.WriteString(out)
+	if err := os.WriteFile(args[1], []byte(out), 0o600); err != nil {
+		return 2
+	}
 	return 0
 }
 
